@@ -292,6 +292,19 @@ func (l *loadState) line(toks []string) (string, bool) {
 			panic(err)
 		}
 		return "", false
+	case "tree.link":
+		// tree.link <root> <name> <target>: a symbolic link; a target starting with "@" is relative to the tree's top
+		r, _ := strconv.Atoi(toks[1])
+		p := filepath.Join(l.dir, rootDirs[r], unhex(toks[2]))
+		os.MkdirAll(filepath.Dir(p), 0o777)
+		target := unhex(toks[3])
+		if strings.HasPrefix(target, "@") {
+			target = filepath.Join(l.dir, target[1:])
+		}
+		if err := os.Symlink(target, p); err != nil {
+			panic(err)
+		}
+		return "", false
 	case "tree.load":
 		old, _ := os.Getwd()
 		os.Chdir(l.dir)
